@@ -170,6 +170,9 @@ m(["C18"], "unwrap-on-parse", "src/s_linked_list.rs",
   "                    list = link_front(parse_term(s2).unwrap(), false, list);\n                    end_index = ind;", "P2")
 m(["C18"], "parentheses-order-not-tested", "src/parse_goals.rs", "    if right < left {\n        let s = chars_to_string!(goal);\n        return Err(iop_error(\"Invalid parentheses\", &s));\n    }\n", "", "P3")
 m(["C18"], "parentheses-sentinel-returned", "src/parse_goals.rs", "    if left == -1 { return Ok(None); }\n    return Ok(Some((left as usize, right as usize)));", "    if left == -1 && right == -1 { return Ok(None); }\n    return Ok(Some((left as usize, right as usize)));", "P3")
+m(["C18"], "neck-index-off-by-one", "src/rule.rs", "           if previous_colon == true { return Some(i - 1); }", "           if previous_colon == true { return Some(i); }", "P3")
+m(["C18"], "list-end-index-raised", "src/s_linked_list.rs", "                            end_index = ind;", "                            end_index = ind + 2;", "P3")
+m(["C18"], "tokenizer-start-skips-ahead", "src/tokenizer.rs", "                    tokens.push(make_leaf_token(\";\"));\n                    start_index = i + 1;\n", "                    tokens.push(make_leaf_token(\";\"));\n                    start_index = i + 2;\n", "P3")
 m(["C18"], "loop-never-advances", "src/infix.rs", "        prev = c1;\n        i += 1;\n\n    } // while\n\n    return (Infix::None, 0);  // failed to find infix\n\n} // check_infix", "        prev = c1;\n        if c1 != '\\u{0}' { i += 1; }\n\n    } // while\n\n    return (Infix::None, 0);  // failed to find infix\n\n} // check_infix", "L")
 # ---------------- globals / timer / unsafe (C22-C24) ----------------
 m(["C22"], "constructor-keeps-flag", "src/s_complex.rs", "    start_query();  // Reset LOGIC_VAR_ID and SUIRON_STOP_QUERY.", "    clear_id();  // Reset LOGIC_VAR_ID.", "R2/reset(SUIRON_STOP_QUERY)")
